@@ -29,7 +29,9 @@ const c02AllocSlack = 64 << 10
 
 // c02Decode runs one message through Unpack and, if accepted, through the follow-up operations.
 func c02Decode(r *fw.R, in []byte, tag string) (accepted bool) {
-	buf := append([]byte(nil), in...) // the decoder may not assume anything about the caller's buffer
+	// exact capacity: a read behind the input panics instead of seeing whatever append() left there
+	buf := make([]byte, len(in))
+	copy(buf, in)
 	m := new(dns.Msg)
 	a0 := fw.AllocBytes()
 	err := m.Unpack(buf)
@@ -50,7 +52,33 @@ func c02Decode(r *fw.R, in []byte, tag string) (accepted bool) {
 		return false
 	}
 	c02Accepted(r, m, in, tag)
+	if tag == "short-option" {
+		c02InsideInput(r, m, in, tag)
+	}
 	return true
+}
+
+// c02InsideInput: "records all lie inside the input" — the decoded message is a function of the input
+// octets alone. The same input is decoded again from buffers with spare capacity behind it, filled with
+// 0xAA and with 0x55; the three results (exact capacity, two fills) must print and re-pack identically.
+func c02InsideInput(r *fw.R, m *dns.Msg, in []byte, tag string) {
+	ref := m.String()
+	for _, fill := range []byte{0xAA, 0x55} {
+		buf := make([]byte, len(in)+48)
+		copy(buf, in)
+		for i := len(in); i < len(buf); i++ {
+			buf[i] = fill
+		}
+		m2 := new(dns.Msg)
+		if err := m2.Unpack(buf[:len(in)]); err != nil {
+			r.Fail("depends-on-octets-behind-input/"+tag, "accepted from an exact-capacity buffer, rejected (%v) from the same octets followed by spare capacity filled with %#x: %x", err, fill, clipB(in))
+			return
+		}
+		if s2 := m2.String(); s2 != ref {
+			r.Fail("depends-on-octets-behind-input/"+tag, "the decoded message changes with the octets behind the input (spare capacity filled with %#x):\n%s\n--- exact capacity:\n%s\ninput %x", fill, clip(s2), clip(ref), clipB(in))
+			return
+		}
+	}
 }
 
 func clipB(b []byte) []byte {
@@ -224,7 +252,44 @@ func c02Spaces(c *fw.Ctx) {
 			}
 		})
 
-	c.Space("short/options", "every EDNS0 option code the library knows (+2 unknown) and every SVCB key (+2 unknown) × all payloads of length ≤ 2 and length 3..20 of boundary fill, inside a well-formed OPT / SVCB record in a message; non-trivial: accepted", true,
+	c.Space("short/with-header", "UnpackRRWithHeader: every registered type (+ one unassigned) × Rdlength 0..12 × buffers of Rdlength..Rdlength+6 octets over fills {00, 01, 3f, c0, ff} × offset {0, 1} (the header is the caller's, the buffer may continue behind the RDATA): no panic, and what is accepted can be printed, measured, copied and packed; non-trivial: accepted", true,
+		func(emit func(func(*fw.R))) {
+			ts := append(append([]uint16(nil), types...), 65280)
+			for _, t := range ts {
+				t := t
+				emit(func(r *fw.R) {
+					for rdl := 0; rdl <= 12; rdl++ {
+						for extra := 0; extra <= 6; extra++ {
+							for _, fill := range []byte{0, 1, 0x3f, 0xc0, 0xff} {
+								for off := 0; off <= 1; off++ {
+									msg := bytes.Repeat([]byte{fill}, off+rdl+extra)
+									h := dns.RR_Header{Name: ".", Rrtype: t, Class: 1, Ttl: 5, Rdlength: uint16(rdl)}
+									func() {
+										defer func() {
+											if p := recover(); p != nil {
+												r.Fail("panic/with-header", "UnpackRRWithHeader(type %d, Rdlength %d, %d octets of %#x, off %d) panicked: %v", t, rdl, len(msg), fill, off, p)
+											}
+										}()
+										rr, _, err := dns.UnpackRRWithHeader(h, msg, off)
+										if err != nil || rr == nil {
+											return
+										}
+										r.Nontrivial()
+										_ = rr.String()
+										_ = dns.Len(rr)
+										_ = dns.Copy(rr)
+										buf := make([]byte, 512)
+										dns.PackRR(rr, buf, 0, nil, false)
+									}()
+								}
+							}
+						}
+					}
+				})
+			}
+		})
+
+	c.Space("short/options", "every EDNS0 option code the library knows (+2 unknown) and every SVCB key (+2 unknown) × all payloads of length ≤ 2, length 3..20 of boundary fill, and structured payloads (4 leading octets {0,1,2,0x18}×{0,1,2,0x18,0x20,0x21,0x7f,0x80,0xff}³ + a tail of 0..17 octets of 0x00 / 0xff), inside a well-formed OPT / SVCB record in a message; non-trivial: accepted", true,
 		func(emit func(func(*fw.R))) {
 			codes := []uint16{1, 2, 3, 4, 5, 6, 7, 8, 9, 10, 11, 12, 15, 18, 19, 20, 65001}
 			keys := []uint16{0, 1, 2, 3, 4, 5, 6, 7, 8, 9, 65280, 65535}
@@ -234,7 +299,7 @@ func c02Spaces(c *fw.Ctx) {
 					list = keys
 				}
 				for _, code := range list {
-					for a := -1; a < 256; a++ {
+					for a := -2; a < 256; a++ {
 						isOpt, code, a := isOpt, code, a
 						emit(func(r *fw.R) {
 							try := func(pl []byte) {
@@ -252,6 +317,60 @@ func c02Spaces(c *fw.Ctx) {
 								if c02Decode(r, msg, "short-option") {
 									r.Nontrivial()
 								}
+								// the same option / key followed by a sibling (a LOCAL option, the highest SVCB
+								// key) filled with 0xAA and with 0x55: what the first one decodes to may not
+								// depend on the octets of the next
+								if code >= 65000 {
+									return
+								}
+								var first [2]string
+								for i, fill := range []byte{0xAA, 0x55} {
+									sib := append([]byte{0xff, 0xfe, 0, 20}, bytes.Repeat([]byte{fill}, 20)...)
+									rd2 := append(append([]byte(nil), rd...), sib...)
+									rr2 := append(append([]byte(nil), rrb[:9]...), byte(len(rd2)>>8), byte(len(rd2)))
+									rr2 = append(rr2, rd2...)
+									msg2 := append([]byte{0, 1, 0x80, 0, 0, 0, 0, 0, 0, 0, 0, 1}, rr2...)
+									m := new(dns.Msg)
+									if m.Unpack(msg2) != nil || len(m.Extra) != 1 {
+										first[i] = "rejected"
+										continue
+									}
+									switch x := m.Extra[0].(type) {
+									case *dns.OPT:
+										if len(x.Option) > 0 {
+											first[i] = x.Option[0].String()
+										}
+									case *dns.SVCB:
+										if len(x.Value) > 0 {
+											first[i] = x.Value[0].String()
+										}
+									}
+								}
+								if first[0] != first[1] {
+									r.Fail("depends-on-octets-behind-input/short-option", "option/key %d with payload %x decodes to %q when the next option is filled with 0xAA and to %q when it is filled with 0x55", code, pl, clip(first[0]), clip(first[1]))
+								}
+							}
+							if a == -2 {
+								// structured payloads: 4 leading octets over a boundary alphabet (families, prefix
+								// lengths, counts, lengths) followed by a tail of 0..17 octets
+								al := []byte{0, 1, 2, 0x18, 0x20, 0x21, 0x7f, 0x80, 0xff}
+								for _, b0 := range al[:4] {
+									for _, b1 := range al {
+										for _, b2 := range al {
+											for _, b3 := range al {
+												for n := 0; n <= 17; n++ {
+													for _, fill := range []byte{0, 0xff} {
+														try(append([]byte{b0, b1, b2, b3}, bytes.Repeat([]byte{fill}, n)...))
+														if n == 0 {
+															break
+														}
+													}
+												}
+											}
+										}
+									}
+								}
+								return
 							}
 							if a < 0 {
 								try(nil)
